@@ -151,6 +151,7 @@ func DoWithContext(ctx Context, actor func(Context)) {
 		}()
 	} else {
 		threadlocal.Init()
+		defer threadlocal.Cleanup()
 	}
 	threadlocal.Set(PuppetContextKey, ctx)
 	actor(ctx)
@@ -167,10 +168,10 @@ func CurrentContext() Context {
 // Fork calls the given function in a new go routine. The given context is forked and becomes
 // the CurrentContext for that routine.
 func Fork(c Context, doer ContextDoer) {
+	cf := c.Fork()
 	go func() {
 		defer threadlocal.Cleanup()
 		threadlocal.Init()
-		cf := c.Fork()
 		threadlocal.Set(PuppetContextKey, cf)
 		doer(cf)
 	}()
